@@ -4,16 +4,16 @@ CONSTANT MaxDepth
 VARIABLES st, last, depth
 vars == <<st, last, depth>>
 Init == st = St0 /\ last = [op |-> "init"] /\ depth = 0
-Do(op, t, h) == LET r == Apply(st, op, t, h) IN
-                st' = r.st /\ last' = [op |-> op, t |-> t, h |-> h, pre |-> st, exc |-> r.exc, calls |-> r.calls] /\ depth' = depth + 1
-Next == depth < MaxDepth /\ \E t \in Targets, h \in Handlers :
-          \/ (t \in st.alive /\ st.cnt[t][h] < 2 /\ Do("reg", t, h)) \/ (t \in st.alive /\ Do("unreg", t, h))
-          \/ Do("change", "T1", "H1") \/ (t \in st.alive /\ Do("collect", t, "H1"))
+Do(op, t, h, m) == LET r == Apply(st, op, t, h, m) IN
+                st' = r.st /\ last' = [op |-> op, t |-> t, h |-> h, m |-> m, pre |-> st, exc |-> r.exc, calls |-> r.calls] /\ depth' = depth + 1
+Next == depth < MaxDepth /\ \E t \in Targets, h \in Handlers, m \in {1, 2, 3} :
+          \/ (t \in st.alive /\ (\A g \in Graphs : st.cnt[t][h][g] < 2) /\ Do("reg", t, h, m)) \/ (t \in st.alive /\ Do("unreg", t, h, m))
+          \/ Do("change", "T1", "H1", 1) \/ (t \in st.alive /\ Do("changetag", t, "H1", 1)) \/ (t \in st.alive /\ Do("collect", t, "H1", 1))
 Spec == Init /\ [][Next]_vars
 \* n registrations and n removals leave everything as before; one removal more raises and changes nothing
-Reversible == last.op = "unreg" /\ last.exc = "" => st.cnt[last.t][last.h] + 1 = last.pre.cnt[last.t][last.h]
-ExtraRemovalRaises == last.op = "unreg" /\ last.pre.cnt[last.t][last.h] = 0 => last.exc = "NotifierNotFound" /\ st = last.pre
+Reversible == last.op = "unreg" /\ last.exc = "" => \A g \in GraphsOf(last.m) : st.cnt[last.t][last.h][g] + 1 = last.pre.cnt[last.t][last.h][g]
+ExtraRemovalRaises == last.op = "unreg" /\ (\E g \in GraphsOf(last.m) : last.pre.cnt[last.t][last.h][g] = 0) => last.exc = "NotifierNotFound" /\ st = last.pre
 \* registrations on one object never answer for another one's, equal or not
-PerObject == last.op = "change" => \A h \in Handlers : last.calls[h] = Cardinality({t \in last.pre.alive : last.pre.cnt[t][h] > 0})
+PerObject == last.op = "change" => \A h \in Handlers : last.calls[h] = Cardinality({t \in last.pre.alive : last.pre.cnt[t][h][1] > 0})
 OnlyOwnRegistrationsDie == last.op = "collect" => \A t \in Targets \ {last.t} : st.cnt[t] = last.pre.cnt[t]
 =============================================================================
